@@ -92,6 +92,19 @@ impl RangeKeeper {
 }
 
 fn get_text_edits(old_text: &str, new_text: &str) -> Vec<TextEdit> {
+    if old_text.contains('\r') {
+        // LSP positions cannot point into the middle of a "\r\n" pair and count a lone '\r' as a line break,
+        // so the chunk-wise edits below cannot be expressed: replace the whole document instead
+        if old_text == new_text {
+            return vec![];
+        }
+        let lf_only = old_text.replace("\r\n", "\n").replace('\r', "\n");
+        return vec![TextEdit {
+            range: RangeKeeper::new().to_range(&lf_only),
+            new_text: new_text.to_string(),
+        }];
+    }
+
     let mut rk = RangeKeeper::new();
 
     let edits = diff(old_text, new_text);
